@@ -181,6 +181,8 @@ class Interp:
     @staticmethod
     def truth(v):
         if isinstance(v, tuple):
+            if v and v[0] == "opaque":
+                raise Unknown("branch on a value the rule does not model: %r" % (v,))
             return True
         return bool(v)
 
